@@ -303,7 +303,7 @@ def fmt_fields(fields):
 
 
 def run_container(chk, tier, seed, desc, owned, flagsets=("",), modes=("plain",), do_random=True, threads=6,
-                  model_filter=None, replays_per_model=None):
+                  model_filter=None, replays_per_model=None, random_tier=None):
     rng = random.Random(seed)
     SCRIPT_FIELDS[desc.HARNESS] = desc.FIELDS
     fmt = fmt_fields(desc.FIELDS)
@@ -364,4 +364,4 @@ def run_container(chk, tier, seed, desc, owned, flagsets=("",), modes=("plain",)
             tc = dict(m["trace_consts"]); tc["Owned"] = ownedc
             replay_all(m, script, "%s-%s-rand-%s" % (chk.pid, desc.NAME, m["tag"]), tc, count_distinct=True)
         with ThreadPoolExecutor(threads) as ex:
-            list(ex.map(rnd, desc.randoms(tier, rng)))
+            list(ex.map(rnd, desc.randoms(random_tier or tier, rng)))
